@@ -1712,7 +1712,7 @@ func revertSuccessfulV2Contracts(tx *txn, status contracts.V2ContractStatus, suc
 		}
 
 		// update the contract's resolution index and status
-		if res, err := updateStmt.Exec(status, state.ID); err != nil {
+		if res, err := updateStmt.Exec(contracts.V2ContractStatusActive, state.ID); err != nil {
 			return fmt.Errorf("failed to update contract %q: %w", contractID, err)
 		} else if n, err := res.RowsAffected(); err != nil {
 			return fmt.Errorf("failed to get rows affected: %w", err)
